@@ -212,6 +212,11 @@ structure RowRes where
   invalid : Bool
 deriving Repr
 
+/-- "the row has a time": its onset cell parses as a number (`~pd.isna(pd.to_numeric(onset, errors='coerce'))`; the
+`n/a` cell, any other text, and `nan` do not).  The SINGLE source for both passes: `_run_checks` leaves exactly these rows
+to the onset pass (`onset_mask`), and `split_delay_tags` / `_indexed_dict_from_onsets` keep exactly these rows' text. -/
+def hasTime (r : Row) : Bool := r.onset.isSome
+
 /-- `new_column_issues` after the cell loop: the issues of the LAST looked-at cell -/
 def lastCellIssues (cfg : Cfg) (r : Row) : List RIssue :=
   match (live cfg r).getLast? with
@@ -314,9 +319,13 @@ def movedRows (cfg : Cfg) (p : Nat) (r : Row) : List (Int × Str × Nat) :=
     | some d => (usable r.onset d).map fun t => (t, it.text, p)
     | none => none
 
+/-- the rows that have a time, with the HED text they keep: the row's own contribution to the time points -/
+def ownFrame (cfg : Cfg) (R : List Row) : List (Int × Str × Nat) :=
+  (enumF 0 R).filterMap fun pr => pr.2.onset.map fun t => (t, ownText cfg pr.2, pr.1)   -- `some` iff `hasTime`
+
 /-- numeric rows of `split_df` before sorting: the rows themselves, then the appended ones -/
 def splitFrame (cfg : Cfg) (R : List Row) : List (Int × Str × Nat) :=
-  (enumF 0 R).filterMap (fun pr => pr.2.onset.map fun t => (t, ownText cfg pr.2, pr.1)) ++
+  ownFrame cfg R ++
   (enumF 0 R).flatMap (fun pr => movedRows cfg pr.1 pr.2)
 
 /-- `filter_series_by_onset`: consecutive rows with the same time: the first gets the `","`-joined text,
@@ -419,7 +428,7 @@ def validate (cfg : Cfg) (T : List Row) : Except PyExc (List Issue) :=
         .error .indexError
       else
         .ok (assemble cfg T fun pr =>
-          if cfg.maskByRow then pr.2.onset.isSome else decide (lab pr.1 < tf.length))
+          if cfg.maskByRow then hasTime pr.2 else decide (lab pr.1 < tf.length))
   else
     .ok (assemble cfg T fun _ => false)
 
